@@ -217,7 +217,20 @@ MALFORMED = ["", " ", "\n\t", "(", ")", "(a", "a)", "((a)", "[a TO", "[a TO b", 
              "discount:[10% 20%]", "[10 TO 20 30%]", "[a TO b %s]", "100% (", "%d %s )", "a {0} )", "{x} AND", "%",
              "a || b OR c", "a AND b && c", "a && b AND c", "a || b || c", "(a || b) && c", "x:(a || b)",
              # several dots in a numeral
-             "a~1.0.5", "a^2.0.", "a~1..5", "a^2.50.1", '"a b"~2.0', '"a b"~9007199254740993']
+             "a~1.0.5", "a^2.0.", "a~1..5", "a^2.50.1", '"a b"~2.0', '"a b"~9007199254740993',
+             # a reserved word glued to a quote (one term today), on both sides of phrases and inside ranges
+             'NOT"foo" baz', 'AND"b c"', '"a"OR"b"', '[a TO"b"]', 'a AND"b"', 'x OR"p q" y', 'f:NOT"a"', 'TO"a"',
+             'NOT"a"', '(NOT"a b") c', 'a NOT"b"^2',
+             # regular expressions: brackets and slashes inside, a token glued right after the closing slash
+             "/[/ OR /]/", "x:/a[/ AND y:/]b/", "/[a-z]+/ b", "/a[/", "/a]/ [b TO c]", "/[^/]+/", "x /a/b", "x /a/ b",
+             "f:/a/b", "/a/(b)", '/a/"x"', "/a//b/", "/a/[b TO c]", "/a/-b", "/a/NOT b", "/a/g:b", "/a/^2", "(/a/)",
+             "now/d", "path:/var/log/syslog", "a / b", "/a\\/b/ c",
+             # a byte order mark / zero-width characters at the start and after blanks (characters of a term)
+             "\ufeffa", "\ufeff a", " \ufeffa b", "\ufeff", "\u200b a", "a \ufeff:b",
+             # a bare ^ or ~ (implicit numeral) after every kind of operand, with and without a field
+             "f:(a b)^", "f:(a b)^ c", "f:(a b)^2", "f:(a b)^1", "f:( a b ) ^", "(a b)^", "f:a^", 'f:"p q"~', 'f:"p q"^',
+             "f:[a TO b]^", "f:/r/^", "g:(f:(a b)^)", "NOT f:(a)^", "f:(a b)^^", "f:(a b)~", "f:(a b)^ ^2", "f:((a b)^)",
+             "f:(a b)^2^3", "x AND f:(a OR b)^ OR y"]
 
 
 def impl_parse(s, fn):
